@@ -30,7 +30,7 @@ def gen_cases(tier, seed):
     n_hom = 150 if tier == "quick" else 2000
     for c in range(n_hom):
         what = rnd.choice(["param", "enum", "base"])
-        ln = rnd.choice([0, 1, 2, 3, 7, 20, 50])
+        ln = rnd.choice([0, 1, 2, 3, 7, 20, 50, 33, 65, 90, 130, 300])     # long lists too: past 16, 32, 64, 128, 256 members
         items = ["%d:%d" % (rnd.randrange(10) if rnd.random() < 0.8 else 0, rnd.randrange(6)) for _ in range(ln)]
         cases.append("hom %s %s" % (what, ",".join(items) if items else "-"))
     return cases
@@ -102,6 +102,20 @@ def oracle_hom(case, d):
             seen.add(nm)
         if d["probes"] != (want or "-"):
             errs.append(("lookup-interleaved", "looking a name up right before / right after its declaration: got %s, expected %s" % (d["probes"][:60], want[:60])))
+    # name lookup followed by selection by type: the FIRST member entered under that name, when its type is the one asked for
+    # (enumerators all have the enumeration's type; a base subobject is named by its type)
+    want_by = []
+    for nm, t in items:
+        if what == "base":
+            want_by.append(str(next(i for i, (_, t2) in enumerate(items) if t2 == t)))
+        else:
+            first = next(i for i, (n2, _) in enumerate(items) if n2 == nm)
+            want_by.append(str(first) if what == "enum" or items[first][1] == t else "notype")
+    if "byname" in d and d["byname"] != (",".join(want_by) or "-"):
+        got = d["byname"].split(",")
+        j = next((i for i, (a, b) in enumerate(zip(got, want_by)) if a != b), 0)
+        errs.append(("lookup-first", "in a %s list of %d members, looking up the name of member %d and selecting by its type yields %s; the first member entered "
+                                     "with that name is %s" % (what, n, j, got[j] if j < len(got) else "?", want_by[j])))
     if what != "enum" and d["types"] != (",".join(str(t) for _, t in items) or "-"):
         errs.append(("type", "the type of the list is not the product of its members' types"))
     return errs
